@@ -535,9 +535,34 @@ def cov_merge(p, res):
         raise AnalysisError('COV-MERGE: AbbreviationNode slots changed: %s' % sorted(slots))
     from .tablecheck import check_table
     check_table(p, res, 'COV-MERGE', 'markup.snippets.merge', "the alias' self_closing flag, value (when not None) and repeater are transferred to the definition node")
+    def top_only_guard(p, f):
+        """the cycle guard must look at every snippet that is being expanded: a comparison with the top of the stack only misses
+        a cycle through another snippet (a -> b -> a)"""
+        pushed = {src_of(n.func.value) for n in f.body_nodes() if isinstance(n, ast.Call) and isinstance(n.func, ast.Attribute) and n.func.attr == 'append'}
+        for st in sorted(pushed):
+            member = [n for n in f.body_nodes() if isinstance(n, ast.Compare) and any(isinstance(o, (ast.In, ast.NotIn)) for o in n.ops)
+                      and any(src_of(c) == st for c in n.comparators)]
+            top = [n for n in f.body_nodes() if isinstance(n, ast.Compare) and any(isinstance(o, (ast.Eq, ast.NotEq, ast.Is, ast.IsNot)) for o in n.ops)
+                   and any(isinstance(x, ast.Subscript) and src_of(x.value) == st and p.try_const(f, x.slice) == -1 for x in [n.left] + list(n.comparators))]
+            if top and not member:
+                return top[0], src_of(top[0]), 'the cycle guard compares only with the innermost entry of `%s`: a snippet that refers back to itself through another snippet (a -> b -> a) is expanded without end' % st
+        return None
+
+    def first_only(p, f):
+        """data written on the alias must reach every top-level node of the definition / the deepest node of the whole definition:
+        indexing the definition's children with a constant picks one of them"""
+        for n in f.body_nodes():
+            if isinstance(n, ast.Call) and isinstance(n.func, ast.Name) and n.func.id in ('merge', 'find_deepest') and n.args:
+                for a in n.args:
+                    if isinstance(a, ast.Subscript) and isinstance(a.value, ast.Attribute) and a.value.attr == 'children' and isinstance(p.try_const(f, a.slice), int) \
+                            and not any(isinstance(x, (ast.For, ast.comprehension)) and any(y is n for y in ast.walk(x)) and src_of(a.value) in src_of(x.iter) for x in ast.walk(f.node)):
+                        return n, src_of(n), 'only the definition node at a fixed index receives what was written on the alias (%s): the other top-level nodes of a multi-node definition are skipped' % src_of(a)
+        return None
     check_table(p, res, 'COV-MERGE', 'markup.snippets.resolve_snippets.resolve',
-                'cycle guard (tested before the push, popped after the recursive walk); attributes of the alias are concatenated after the definition\'s (before, when reversed) and merge(child, top_node) runs for every top-level node of the definition')
-    check_table(p, res, 'COV-MERGE', 'markup.snippets.walk_resolve', 'resolved definition nodes replace the alias; the alias\' children go below the deepest node of the definition; unresolved nodes are kept and walked')
+                'cycle guard (tested before the push, popped after the recursive walk); attributes of the alias are concatenated after the definition\'s (before, when reversed) and merge(child, top_node) runs for every top-level node of the definition',
+                detectors=(top_only_guard, first_only))
+    check_table(p, res, 'COV-MERGE', 'markup.snippets.walk_resolve', 'resolved definition nodes replace the alias; the alias\' children go below the deepest node of the definition; unresolved nodes are kept and walked',
+                detectors=(first_only,))
     check_table(p, res, 'COV-MERGE', 'markup.utils.find_deepest', 'the deepest node is found by following the *last* child')
     res.require_floor(4)
 
